@@ -383,7 +383,8 @@ StepSignal(cx, st) ==
        THEN LET s1 == RowAfter(cx, st, f) IN
               IF s1.sink.failed
               THEN (IF cx.pol.flushErr = "panic" THEN [s1 EXCEPT !.status = "panic"] ELSE Fail(cx, s1, 0 - 1, "io"))
-              ELSE IF f.node.tag = "tablerow" THEN Undecided(s1)   \* a row left open: not decided
+              \* the cell is closed; when it was not the last of its row, a row stays open: not decided
+              ELSE IF f.node.tag = "tablerow" /\ ~((f.cols # 0 /\ f.i % f.cols = 0) \/ f.i = Len(f.items)) THEN Undecided(s1)
               ELSE [LoopExit(s1, f) EXCEPT !.sig = "none"]
        ELSE [st EXCEPT !.sig = "none"])        \* continue: the loop frame is in phase "after"
     ELSE CASE f.end = "root" -> Fail(cx, [st EXCEPT !.k = Pop(@)], 0 - 1, "loop-signal")
